@@ -64,7 +64,25 @@ fn entry_clone_nofields(e: &StreamEntry) -> StreamEntry {
     assert!(e.fields.len() == 0, "harness shape: entries without fields");
     StreamEntry { id: e.id, fields: HashMap::new() }
 }
-/// harness with the three exact stubs above
+/// `ptr::copy` (memmove) with a symbolic element count (Vec::remove, Drain drop after a symbolic
+/// binary-search index) is a symbolic-size copy.  Exact replacement by per-element moves in the
+/// overlap-safe direction; every single move has a concrete size.
+unsafe fn ptr_copy_elementwise<T>(src: *const T, dst: *mut T, count: usize) {
+    if (dst as *const T) <= src {
+        let mut i = 0;
+        while i < count {
+            std::ptr::write(dst.add(i), std::ptr::read(src.add(i)));
+            i += 1;
+        }
+    } else {
+        let mut i = count;
+        while i > 0 {
+            i -= 1;
+            std::ptr::write(dst.add(i), std::ptr::read(src.add(i)));
+        }
+    }
+}
+/// harness with the exact stubs above
 macro_rules! state_harness {
     ($name:ident, $unwind:expr, $body:expr) => {
         #[kani::proof]
@@ -73,6 +91,7 @@ macro_rules! state_harness {
         #[kani::stub(std::vec::Vec::push, vec_push_nogrow)]
         #[kani::stub(<StreamEntry as std::clone::Clone>::clone, entry_clone_nofields)]
         #[kani::stub(get_cached_millis, cached_millis_stub)]
+        #[kani::stub(std::ptr::copy, ptr_copy_elementwise)]
         fn $name() {
             $body
         }
@@ -591,60 +610,78 @@ state_harness!(c15_range_after_n3, 5, {
 // ---------------------------------------------------------------- XDEL / XTRIM
 /// XDEL with two arbitrary IDs (present, absent, equal): exactly those entries disappear, reply
 /// counts them once, XLEN agrees, last_id (all copies) is unchanged.
-state_harness!(c15_delete_n3, 5, {
-    let (ids, last) = any_sorted_ids::<3>();
+fn delete_check<const N: usize>() {
+    let (ids, last) = any_sorted_ids::<N>();
     let s = ManuallyDrop::new(mk_stream_ids(&ids, last));
     let del = [any_id(), any_id()];
     let n = s.delete(&del);
-    let mut exp = [StreamId { packed: 0 }; 3];
+    let mut exp = [StreamId { packed: 0 }; N];
     let mut m = 0;
     let mut k = 0;
-    while k < 3 {
+    while k < N {
         if ids[k] != del[0] && ids[k] != del[1] {
             exp[m] = ids[k];
             m += 1;
         }
         k += 1;
     }
-    kani::cover!(m == 1, "two deleted");
-    kani::cover!(m == 2 && del[0] == del[1], "same ID twice counts once");
-    kani::cover!(m == 3, "nothing deleted");
-    kani::cover!(m == 2 && del[0] == ids[2], "top entry deleted");
-    assert!(n == 3 - m, "XDEL reply == number of entries removed");
+    kani::cover!(m + 2 == N, "two deleted");
+    kani::cover!(m + 1 == N && del[0] == del[1], "same ID twice counts once");
+    kani::cover!(m == N, "nothing deleted");
+    kani::cover!(m + 1 == N && del[0] == ids[N - 1], "top entry deleted");
+    assert!(n == N - m, "XDEL reply == number of entries removed");
     check_state(&s, &exp[..m], last);
     let d = s.data.lock().unwrap();
     assert!(d.memory_usage >= std::mem::size_of::<StreamData>(), "memory counter did not underflow");
     drop(d);
+}
+state_harness!(c15_delete_n2, 4, {
+    delete_check::<2>();
+});
+state_harness!(c15_delete_n3, 4, {
+    delete_check::<3>();
 });
 
-/// XTRIM MAXLEN n: the oldest entries go, the newest min(n, len) stay; last_id unchanged.
-state_harness!(c15_trim_count_n3, 5, {
+/// XTRIM MAXLEN n on 3 entries: the oldest entries go, the newest min(n, len) stay; last_id
+/// unchanged.  n = 0, 1, 2 concretely (a symbolic n makes the drained length a symbolic copy
+/// size), every n >= 3 symbolically.
+fn trim_count_case(max: usize) {
     let (ids, last) = any_sorted_ids::<3>();
     let s = ManuallyDrop::new(mk_stream_ids(&ids, last));
-    let max: usize = kani::any();
     let n = s.trim_by_count(max);
     let keep = if max < 3 { max } else { 3 };
-    kani::cover!(keep == 0, "trimmed to empty");
-    kani::cover!(keep == 2, "one trimmed");
-    kani::cover!(keep == 3, "nothing trimmed");
     assert!(n == 3 - keep, "XTRIM reply == number of entries removed");
     check_state(&s, &ids[3 - keep..], last);
+}
+state_harness!(c15_trim_count_n3, 4, {
+    trim_count_case(0);
+    trim_count_case(1);
+    trim_count_case(2);
+    let max: usize = kani::any();
+    kani::assume(max >= 3);
+    trim_count_case(max);
+    kani::cover!(true, "reached the end");
 });
 
 /// trim by minimum ID: exactly the entries below min_id go; last_id unchanged.
-state_harness!(c15_trim_minid_n3, 5, {
-    let (ids, last) = any_sorted_ids::<3>();
+fn trim_minid_check<const N: usize>() {
+    let (ids, last) = any_sorted_ids::<N>();
     let s = ManuallyDrop::new(mk_stream_ids(&ids, last));
     let min = any_id();
     let n = s.trim_by_min_id(&min);
     let mut gone = 0;
-    while gone < 3 && ids[gone] < min {
+    while gone < N && ids[gone] < min {
         gone += 1;
     }
-    kani::cover!(gone == 3, "trimmed to empty");
+    kani::cover!(gone == N, "trimmed to empty");
     kani::cover!(gone == 1 && min == ids[1], "min_id equal to a present ID keeps it");
     kani::cover!(gone == 0, "nothing trimmed");
     assert!(n == gone, "reply == number of entries removed");
     check_state(&s, &ids[gone..], last);
+}
+state_harness!(c15_trim_minid_n2, 4, {
+    trim_minid_check::<2>();
 });
-
+state_harness!(c15_trim_minid_n3, 4, {
+    trim_minid_check::<3>();
+});
